@@ -45,7 +45,9 @@ DEVS = {
     "crash.extend_cycle_through_attribute": (["Type", "Attribute", "Extend"], 3, 0, "tiny"),
     "crash.parent_cycle": (["Service", "HTTP", "Parent"], 3, 0, "tiny"),
     "accept.scope": (["Service", "Method", "Security", "Scope"], 4, 0, "tiny"),
-    "accept.response_view_mapping": (["ResultType", "Attribute", "View", "Service", "Method", "Result", "HTTP", "Response", "Header"], 9, 0, "rv", "simulate"),
+    # (a constellation of a dozen calls: random walks need the spine of the focused walk to reach it)
+    "accept.response_view_mapping": (["ResultType", "Attributes", "Attribute", "View", "Service", "Method", "Result", "HTTP", "Response", "Header"], 14, 0, "rv", "simulate",
+                                     {"Once": '{"ResultType", "Attributes", "Service", "Method", "Result", "HTTP", "Response"}', "SpineDeep": "TRUE", "MinKids": 1, "MinCalls": 10}),
     "accept.body_attribute": (["Service", "Method", "HTTP", "Body", "Attribute"], 5, 0, "min", "simulate"),
     "accept.response_tag": (["Service", "Method", "HTTP", "Response", "Tag"], 5, 0, "min", "simulate"),
     "accept.request_mapping": (["Service", "Method", "HTTP", "Param"], 4, 0, "tiny"),
@@ -87,7 +89,10 @@ def model_check(ctx, quick):
         fns, calls, mis, pools = DEVS[dev][:4]
         consts = dict(SMALL, Fns=tla_set(fns), MaxCalls=calls, MaxMisplaced=mis, Pools='"%s"' % pools, Deviations='{"%s"}' % dev)
         if len(DEVS[dev]) > 4:      # the exhaustive model is large: random walks reach the counterexample at once
-            ctx.mc_expect_violation("mc/MC_DSLProgram", consts=dict(consts, MinCalls=calls), label="dev " + dev, workers=2, simulate=200000, depth=80, timeout=300)
+            consts = dict(consts, MinCalls=calls)
+            if len(DEVS[dev]) > 5:
+                consts.update(DEVS[dev][5])
+            ctx.mc_expect_violation("mc/MC_DSLProgram", consts=consts, label="dev " + dev, workers=2, simulate=200000, depth=120, timeout=300)
         else:
             ctx.mc_expect_violation("mc/MC_DSLProgram", consts=consts, label="dev " + dev, workers=2, timeout=300)
     with cf.ThreadPoolExecutor(max_workers=8) as ex:
